@@ -373,6 +373,84 @@ def r6(tree, rep):
                    "re-advertised as this side's own relays (the peer dials targets this side never produced)" % both)
 
 
+def r7(tree, rep):
+    """endpoint_from_hint_obj answers None for a hint no endpoint can be built for (with Tor: every private or IPv6 address; an
+    unsupported hint class).  Which hints those are is decided by the PEER's data, so every caller has to look at the answer before
+    it uses it: on every path from `ep = endpoint_from_hint_obj(..)` (or a wrapper that returns it) to another use of `ep` a test must
+    have established that ep is there."""
+    from ..cfg import object_atom
+    fn0 = tree.func(HINTS, None, "endpoint_from_hint_obj")
+
+    def returns_none(f):
+        return any(isinstance(r, ast.Return) and (r.value is None or (isinstance(r.value, ast.Constant) and r.value.value is None))
+                   for r in ast.walk(f))
+    if not returns_none(fn0):
+        rep.check("C20.R7", "endpoint_from_hint_obj always returns an endpoint (no `return None`): nothing to test at its callers", True,
+                  site(fn0, HINTS), key="C20.R7:total")
+        return
+    nullable = {"endpoint_from_hint_obj"}
+    funcs = [(p, c, f) for (p, c, f) in tree.all_functions() if not p.startswith("src/wormhole/test/")]
+
+    def callee(c):
+        d = dotted(c.func) or ""
+        return d.split(".")[-1]
+    changed = True
+    while changed:                       # wrappers: `return <nullable>(..)`
+        changed = False
+        for (p, c, f) in funcs:
+            if f.name in nullable:
+                continue
+            if any(isinstance(r, ast.Return) and isinstance(r.value, ast.Call) and callee(r.value) in nullable for r in ast.walk(f)):
+                nullable.add(f.name)
+                changed = True
+    sites = 0
+    for (p, cname, f) in funcs:
+        calls = [c for c in ast.walk(f) if isinstance(c, ast.Call) and callee(c) in nullable]
+        if not calls:
+            continue
+        g = None
+        for c in calls:
+            holder = [a for a in ast.walk(f) if isinstance(a, ast.Assign) and a.value is c and len(a.targets) == 1
+                      and isinstance(a.targets[0], ast.Name)]
+            ret = [r for r in ast.walk(f) if isinstance(r, ast.Return) and r.value is c]
+            label = "%s%s" % ((cname + ".") if cname else "", f.name)
+            if ret and f.name in nullable:
+                continue                  # the wrapper itself: its callers are checked
+            sites += 1
+            if not holder:
+                rep.check("C20.R7", "%s keeps the answer of %s in a local before using it" % (label, callee(c)), False, site(c, p),
+                          key="C20.R7:%s:unnamed" % label,
+                          what="%s uses the result of %s directly; it is None for a peer hint without a usable endpoint" % (label, callee(c)))
+                continue
+            v = holder[0].targets[0].id
+            g = g or build(f, split=True)
+            there = object_atom(lambda e, v=v: isinstance(e, ast.Name) and e.id == v)
+            a_node = g.node_of(holder[0])
+            uses = []
+            for n in g.stmt:
+                if n == a_node:
+                    continue
+                hs = g.head_expr(n)
+                if not any(isinstance(x, ast.Name) and x.id == v and isinstance(x.ctx, ast.Load) for e in hs for x in ast.walk(e)):
+                    continue
+                # the test itself (`if not ep`, `ep is None`) is not a use
+                if all(there(e) is not None or (isinstance(e, ast.UnaryOp) and isinstance(e.op, ast.Not) and there(e.operand) is not None)
+                       for e in hs):
+                    continue
+                uses.append(n)
+            nxt = [y for (y, lab) in g.succ[a_node] if lab != 'exc']
+            avoid = set(g.cond_edges(there, True))
+            r = g.reach_feasible(nxt, avoid_edges=avoid)
+            bad = [n for n in uses if n in r]
+            rep.check("C20.R7", "%s uses `%s = %s(..)` only where a test has shown it is not None (%d use(s))" % (label, v, callee(c), len(uses)),
+                      not bad, site(g.stmt[bad[0]][2] if bad and isinstance(g.stmt[bad[0]], tuple) else (g.stmt[bad[0]] if bad else c), p),
+                      key="C20.R7:%s:%s:tested-before-use" % (label, v),
+                      what="%s: `%s` is None when the peer's hint has no usable endpoint (with Tor: any private or IPv6 address) and is used "
+                           "without a test: an AttributeError inside the connection attempt" % (label, v))
+    if sites < 2:
+        raise AnalysisError("C20.R7: fewer call sites of endpoint_from_hint_obj than the two known (transit and dilation connector): %d" % sites)
+
+
 def run(tree, rep, tier):
     from .. import sharedstate
     sharedstate.check(tree, rep, "C20.R0")
@@ -381,6 +459,7 @@ def run(tree, rep, tier):
     r4(tree, rep)
     r5(tree, rep, tier)
     r6(tree, rep)
+    r7(tree, rep)
 
 
 MUTANTS = [
@@ -397,3 +476,8 @@ REWRITES = []
 
 MUTANTS.append(Mutant("lonely-hints-row-misplaced", MGR, "    LONELY.upon(rx_HINTS, enter=LONELY, outputs=[])  # stale, ignore", "    STOPPED.upon(rx_HINTS, enter=STOPPED, outputs=[])  # stale, ignore", "C20.R5"))
 MUTANTS.append(Mutant("advertise-collected-relays", TR, "        for relay in self._transit_relays:\n            rhint = {\"type\": \"relay-v1\", \"hints\": []}", "        for relay in self._our_relay_hints:\n            rhint = {\"type\": \"relay-v1\", \"hints\": []}", "C20.R6"))
+MUTANTS.append(Mutant("connector-dials-none-endpoint", CTR, "        if ep is None:\n            # no endpoint can reach this hint (e.g. Tor and a private address)\n            return\n", "", "C20.R7",
+                      "the dilation connector uses the endpoint without testing it (finding F14)"))
+MUTANTS.append(Mutant("transit-dials-none-endpoint", TR, "            ep = endpoint_from_hint_obj(hint_obj, self._tor, self._reactor)\n            if not ep:\n                continue\n            d = self._start_connector(ep,", "            ep = endpoint_from_hint_obj(hint_obj, self._tor, self._reactor)\n            d = self._start_connector(ep,", "C20.R7"))
+REWRITES.append(Rewrite("connector-none-endpoint-guard-inverted", CTR, "        if ep is None:\n            # no endpoint can reach this hint (e.g. Tor and a private address)\n            return\n        desc = describe_hint_obj(h, is_relay, self._tor)",
+                        "        if not ep:\n            return None\n        desc = describe_hint_obj(h, is_relay, self._tor)", desc="truthiness spelling of the endpoint test"))
